@@ -290,7 +290,8 @@ def count_rule(chk, prog, only=None):
             if not stores:
                 continue
             n_loops += 1
-            arr, idx, stmt = stores[0]
+            # the output store is the one indexed by the loop variable (scratch arrays filled with literal indices inside the body are not outputs)
+            arr, idx, stmt = next((s_ for s_ in stores if isinstance(s_[1], ast.Name) and s_[1].id == var), stores[0])
             site = "%s%s::for %s in %s" % (F, key, var, ast.unparse(node.iter))
             ok, why = loop_ok(fa, node, st, var, arr, idx, allocs)
             if ok:
